@@ -109,7 +109,17 @@ def classify(diags, fmap, genfile, unit, cfg):
         msg = d.get('message', '')
         if msg.startswith('aborting due to'):
             continue
-        spans = [s for s in d.get('spans', []) if os.path.basename(s.get('file_name', '')) == base]
+        spans = []
+        for s0 in d.get('spans', []):
+            s = s0
+            # a span inside a macro expansion (panic!, unreachable!, assert!): fall back to its call site
+            while s is not None and os.path.basename(s.get('file_name', '')) != base:
+                exp = s.get('expansion')
+                s = exp.get('span') if exp else None
+                if s is not None:
+                    s = dict(s, is_primary=s0.get('is_primary'), label=s0.get('label'))
+            if s is not None:
+                spans.append(s)
         prim = [s for s in spans if s.get('is_primary')] or spans
         line = prim[0]['line_start'] if prim else 0
         tags = []
